@@ -25,7 +25,7 @@ func init() { core.Register(c12{}) }
 func (c12) ID() string    { return "C12" }
 func (c12) Level() string { return "fault_enumeration" }
 func (c12) Rule() string {
-	return "flip cases: small pristine databases built deterministically (variants: plain 1 file; rotated 3 files with overwrites, tombstones and a committed batch; unsealed batch tail; un-adopted finished merge so that hint file, marker and rewritten files are read by Open; 34 KiB variant with a 2-chunk record, thorough only); EVERY single-bit flip of EVERY byte of EVERY file (data, hint, marker) is applied to a fresh copy, then Open, full dump (ListKeys, Get of every key ever written, Fold), Close. damage cases: larger databases (200 KiB..1 MiB, multi-block records) with random 1..64-byte overwrites, truncation to every length of the last two blocks and random lengths elsewhere, a block replaced by garbage or zeros; additionally, decided for the never-a-panic clause only: a block replaced by a copy of another block (intact chunks in the wrong place) and two files exchanged; the damaged file is also fed to the sequential reader directly. Oracle: a panic or process death is a violation; otherwise Open may fail, any Get/Fold may fail with an error other than key-not-found, or every key must map to its latest written value (deleted keys stay absent, no key that was never written appears); only when the damaged newest data file is byte for byte a possible torn-write image (truncation of that file, damage inside its last record, or a chunk of it whose header/declared length now reaches beyond the end of the file, which no reader can tell from the crash tail C03 requires recovery to accept) the mapping may instead be one of the prefix states S_j. Non-trivial: fault that hits a chunk header field or record header of a record that is live; distinct = (variant, file, byte, bit) resp. hash of the fault description"
+	return "flip cases: small pristine databases built deterministically (variants: plain 1 file; rotated 3 files with overwrites, tombstones and a committed batch; unsealed batch tail; un-adopted finished merge so that hint file, marker and rewritten files are read by Open; 34 KiB variant with a 2-chunk record, thorough only); EVERY single-bit flip of EVERY byte of EVERY file (data, hint, marker) is applied to a fresh copy, then Open, full dump (ListKeys, Get of every key ever written, Fold), Close. damage cases: larger databases (200 KiB..1 MiB, multi-block records) with random 1..64-byte overwrites, truncation to every length of the last two blocks and random lengths elsewhere, a block replaced by garbage or zeros, every bit of the length and type fields of seed-chosen chunk headers (block-filling chunks of multi-block records preferred); additionally, decided for the never-a-panic clause only: a block replaced by a copy of another block (intact chunks in the wrong place) and two files exchanged; the damaged file is also fed to the sequential reader directly. Oracle: a panic or process death is a violation; otherwise Open may fail, any Get/Fold may fail with an error other than key-not-found, or every key must map to its latest written value (deleted keys stay absent, no key that was never written appears); only when the damaged newest data file is byte for byte a possible torn-write image (truncation of that file, damage inside its last record, or a chunk of it whose header/declared length now reaches beyond the end of the file, which no reader can tell from the crash tail C03 requires recovery to accept) the mapping may instead be one of the prefix states S_j. Non-trivial: fault that hits a chunk header field or record header of a record that is live; distinct = (variant, file, byte, bit) resp. hash of the fault description"
 }
 func (c12) Assumptions() []string {
 	return []string{"torn-tail window as stated in the rule (narrowest oracle that does not contradict C03)", "CRC-32 collisions are not constructed"}
@@ -628,6 +628,58 @@ func c12Damage(c core.Case, cc c12Case, w *core.Worker) core.Result {
 			res.Violate(fmt.Sprintf("%s: %s", desc, m), map[string]string{"class": "damage", "fault": strings.Fields(desc)[0], "outcome": "reader-panic"}, nil)
 		}
 		os.RemoveAll(cp)
+	}
+	// header-targeted faults: every bit of the length and type fields of seed-chosen
+	// chunks, preferring block-filling chunks of multi-block records
+	{
+		name := dfs[r.Intn(len(dfs))]
+		rel := filepath.Join("db", name)
+		b, _ := os.ReadFile(filepath.Join(root, rel))
+		chunks := vfmt.ScanChunks(b)
+		var pick []vfmt.Chunk
+		for _, ch := range chunks {
+			if ch.Type == vfmt.First || ch.Type == vfmt.Middle {
+				pick = append(pick, ch)
+			}
+		}
+		for len(pick) > 6 {
+			i := r.Intn(len(pick))
+			pick = append(pick[:i], pick[i+1:]...)
+		}
+		for k := 0; k < 6 && len(chunks) > 0; k++ {
+			pick = append(pick, chunks[r.Intn(len(chunks))])
+		}
+		for _, ch := range pick {
+			for bit := 0; bit < 24; bit++ {
+				cp := w.Dir("cp")
+				mon.CopyTree(root, cp)
+				path := filepath.Join(cp, rel)
+				off := ch.Off + 4 + int64(bit/8)
+				fh, err := os.OpenFile(path, os.O_WRONLY, 0644)
+				if err != nil {
+					os.RemoveAll(cp)
+					continue
+				}
+				fh.WriteAt([]byte{b[off] ^ (1 << uint(bit%8))}, off)
+				fh.Close()
+				tail := rel == p.newest && (off >= p.lastRec || tornLooking(path))
+				o, v := c12Observe(cp, p, tail, &res)
+				res.Add("header_bit_faults", 1)
+				res.Add("outcome_"+strings.ReplaceAll(o, "-", "_"), 1)
+				if v != "" {
+					res.Violate(fmt.Sprintf("%s chunk header at %d (type %d, len %d) field bit %d flipped: %s", name, ch.Off, ch.Type, ch.Len, bit, v),
+						map[string]string{"class": "damage", "fault": "header-bit", "outcome": o}, map[string]any{"config": cfg, "chunk": ch, "bit": bit})
+				}
+				if m := c12Reader(path, cc.IO, &res); m != "" {
+					res.Violate(fmt.Sprintf("%s chunk header at %d (type %d, len %d) field bit %d flipped: %s", name, ch.Off, ch.Type, ch.Len, bit, m),
+						map[string]string{"class": "damage", "fault": "header-bit", "outcome": "reader-panic"}, nil)
+				}
+				os.RemoveAll(cp)
+				if len(res.Violations) >= 6 {
+					return res
+				}
+			}
+		}
 	}
 	res.Nontrivial = len(descs) > 0
 	res.Hash = core.HashBytes([]byte(fmt.Sprint(descs)))
